@@ -70,6 +70,16 @@ def rule_symbols(ck):
                 l = op_place(rv["ops"][0])
                 key_ok = l is not None and l[0] in t
         ck.ob("mpt.demangled", "new/key-is-demangled-name", key_ok, "the map key is not derived from the demangled name", g.loc(c.bb))
+        # the key must stay unique per symbol: the plain Display form (`to_string()`, with the `::h<hash>` suffix).
+        # The alternate form `{:#}` drops the hash, all monomorphizations of a generic function then share one key
+        # of the HashMap and all but one symbol vanish from `symbol <regex>`
+        plain = [x for x in g.calls() if x.name.endswith("ToString>::to_string") or x.name.endswith("ToString::to_string")]
+        plain = [x for x in plain if op_place(x.args[0]) and op_place(x.args[0])[0] in t]
+        formatted = [x for x in g.calls() if x.name.endswith("Arguments::<'a>::new_v1_formatted") or x.name.endswith("Arguments::new_v1_formatted") or "new_v1_formatted" in x.name]
+        # (a `format!` rendering is not accepted: its flags live in an opaque template constant; the idiomatic plain
+        # form is `to_string()` — clippy::useless_format — so this does not reject a form anyone would write)
+        plain_fmt = [x for x in g.calls() if re.search(r"fmt::format(::format_inner)?$", x.name)]
+        ck.ob("mpt.demangled", "new/key-keeps-the-hash-suffix", bool(plain) and not plain_fmt and not formatted, f"{len(plain)} plain to_string() of the demangled name, {len(formatted) + len(plain_fmt)} format!-based renderings", g.loc(c.bb), what="symbols that differ only in their hash (monomorphizations, drop_in_place<T>, closures in generic code) collapse into one table entry")
         arg = expr_str(expr_of(g, c.args[0]), 8)
         ck.ob("mpt.demangled", "new/demangles-symbol-name", "name(" in arg, f"demangle({arg})", g.loc(c.bb))
     ff = prog.with_closures(S + "::find")
